@@ -23,12 +23,102 @@ def _solver(timeout_ms):
     return s
 
 
+def _sx_parse(text):
+    """SMT-LIB text -> nested lists of tokens (strings and |quoted symbols| kept as single tokens)"""
+    out, stack, i, n = [], [], 0, len(text)
+    cur = out
+    while i < n:
+        c = text[i]
+        if c == ";":
+            while i < n and text[i] != "\n":
+                i += 1
+        elif c == "(":
+            new = []
+            cur.append(new)
+            stack.append(cur)
+            cur = new
+            i += 1
+        elif c == ")":
+            cur = stack.pop()
+            i += 1
+        elif c.isspace():
+            i += 1
+        elif c == '"':
+            j = i + 1
+            while j < n:
+                if text[j] == '"':
+                    if j + 1 < n and text[j + 1] == '"':
+                        j += 2
+                        continue
+                    break
+                j += 1
+            cur.append(text[i:j + 1])
+            i = j + 1
+        elif c == "|":
+            j = text.index("|", i + 1)
+            cur.append(text[i:j + 1])
+            i = j + 1
+        else:
+            j = i
+            while j < n and not text[j].isspace() and text[j] not in "()":
+                j += 1
+            cur.append(text[i:j])
+            i = j
+    return out
+
+
+def _sx_print(x):
+    return x if isinstance(x, str) else "(" + " ".join(_sx_print(y) for y in x) + ")"
+
+
+def _sets_for_cvc5(text):
+    """z3 prints finite sets as arrays into Bool with its own operator names; cvc5 has a theory of sets: translate
+    (Array T Bool) -> (Set T), const false -> set.empty, union / setminus / intersection, select -> set.member, store .. true -> insert"""
+    if "(Array " not in text:
+        return text
+
+    def tr(x):
+        if isinstance(x, str):
+            return x
+        x = [tr(y) for y in x]
+        if not x:
+            return x
+        if len(x) == 3 and x[0] == "Array" and x[2] == "Bool":
+            return ["Set", x[1]]
+        if len(x) == 2 and isinstance(x[0], list) and x[0][:2] == ["as", "const"] and x[1] == "false":
+            return ["as", "set.empty", x[0][2]]
+        if len(x) == 3 and isinstance(x[0], list) and len(x[0]) == 3 and x[0][0] == "as" and x[0][1] in ("union", "setminus", "intersection"):
+            return [{"union": "set.union", "setminus": "set.minus", "intersection": "set.inter"}[x[0][1]], x[1], x[2]]
+        if not x:
+            return x
+        if isinstance(x[0], list) and x[0][:2] == ["_", "map"] and len(x[0]) == 3:
+            op = x[0][2]
+            if op == "not" and len(x) == 2:
+                return ["set.complement", x[1]]
+            if op == "and" and len(x) == 3:
+                if isinstance(x[2], list) and x[2][:1] == ["set.complement"]:
+                    return ["set.minus", x[1], x[2][1]]
+                if isinstance(x[1], list) and x[1][:1] == ["set.complement"]:
+                    return ["set.minus", x[2], x[1][1]]
+                return ["set.inter", x[1], x[2]]
+            if op == "or" and len(x) == 3:
+                return ["set.union", x[1], x[2]]
+        if len(x) == 3 and x[0] in ("setminus", "union", "intersection") and isinstance(x[0], str):
+            return [{"union": "set.union", "setminus": "set.minus", "intersection": "set.inter"}[x[0]], x[1], x[2]]
+        if len(x) == 3 and x[0] == "select":
+            return ["set.member", x[2], x[1]]
+        if len(x) == 4 and x[0] == "store" and x[3] == "true":
+            return ["set.insert", x[2], x[1]]
+        return x
+    return "\n".join(_sx_print(tr(f)) for f in _sx_parse(text)) + "\n"
+
+
 class _Cvc5Job:
     """cvc5 on an SMT-LIB2 text in a subprocess; can be abandoned"""
 
     def __init__(self, smt, timeout_s, variant="cli"):
         f = tempfile.NamedTemporaryFile("w", suffix=".smt2", delete=False, dir=os.environ.get("PYVC_TMP"))
-        f.write(smt)
+        f.write(_sets_for_cvc5(smt))
         f.close()
         self.path = f.name
         self.timeout_s = timeout_s
